@@ -229,6 +229,8 @@ class Sem:
 # hand-written, self-contained, compilable programs: constructs whose meaning depends on details the random generator
 # reaches rarely (unnamed bit-fields, ?: grouping, for-init lists, casts as operands, comma expressions in brackets, ...)
 SEMZOO = [
+    # unary plus and minus whose integer promotion is observable, unary operators in front of casts, sizeof of parenthesised operands
+    "char uc = 1;\nshort ush = 2;\nstruct UB { unsigned b : 3; int w; } ub = { 5, 6 };\nint up1 = sizeof(+uc);\nint up2 = sizeof(+ush);\nint up3 = sizeof(-uc);\nint up4 = sizeof(~ush);\nint up5 = sizeof(+ub.b);\nint up6 = _Alignof(long) + sizeof(+(char)3);\nint upf(void){ char a[3] = {1, 2, 3}; return (int)sizeof(+uc) + (int)sizeof(uc) + (int)sizeof(+a[1]) + (int)sizeof(+ +uc) + (+uc) + +ush + - -ush + (int)sizeof(!uc) + (int)sizeof(+*a); }\n",
     # designator chains that mix members and indices in every order
     "struct P { int a; int b[2]; struct { int c[2]; } d; };\nstruct Q { struct P arr[2]; int m[2][2]; };\nstruct Q q = { .arr[1].b[0] = 3, .m[1][0] = 7, .arr[0].d.c[1] = 2 };\nstruct P p = { .a = 1, .b[1] = 2, .d.c[0] = 4 };\nint g[2][3] = { [1][2] = 9, [0] = { 1 } };\nstruct O { struct P in[3]; } o = { .in[2].b[1] = 5, .in[0].a = 1, .in[1].d.c[0] = 6 };\nint dz(void){ struct Q l = { .m[0][1] = 1, .arr[1].a = q.arr[1].b[0] }; return l.m[0][1] + l.arr[1].a + p.b[1] + g[1][2] + o.in[2].b[1]; }",
     # empty struct / union bodies (GNU C) next to references to incomplete and complete types
